@@ -83,8 +83,26 @@ fn main() {
         v.get("case_id").and_then(|c| c.as_str()).unwrap_or_else(|| machinery_failure("replay file has no case_id")).to_owned()
     });
 
+    let _ = CURRENT_PROP.set(prop.to_owned());
     let ctx = Ctx { prop, tier, seed, start: std::time::Instant::now(), replay: replay.clone() };
-    let (acc, rep) = runner(&ctx);
+    // safety net: a panic of the code under test that reaches the main thread (outside the guarded workers) is a finding
+    let (acc, rep) = match std::panic::catch_unwind(std::panic::AssertUnwindSafe(|| runner(&ctx))) {
+        Ok(x) => x,
+        Err(p) => {
+            let msg = p.downcast_ref::<String>().cloned().or_else(|| p.downcast_ref::<&str>().map(|s| (*s).to_owned())).unwrap_or_default();
+            let loc = svc::LAST_PANIC_LOCATION.with(|c| c.borrow().clone());
+            if loc.starts_with("src/") || loc.contains("/verif/harness/") {
+                machinery_failure(&format!("the harness panicked at {loc}: {msg}"));
+            }
+            let mut acc = ctx.acc();
+            acc.eval();
+            acc.nontrivial(1);
+            acc.outcome("PANIC IN THE CODE UNDER TEST (run cut short)");
+            acc.sample(0, serde_json::json!({"panic": msg, "location": loc}));
+            acc.fail(&format!("{prop}/panic-in-the-code-under-test@{loc}"), 0, "panic/main-thread".into(), format!("the code under test panicked: {msg} (at {loc}); the run was cut short"), serde_json::json!({"location": loc}));
+            (acc, Report { level: "other", rule: "the run was cut short by a panic in the code under test; nothing else was covered".into(), exhaustive: false, extra: serde_json::json!({"explanation": "a panic of the code under test reached the main thread of the check; it is reported as a violation and the exploration was not completed"}), assumptions: vec![] })
+        }
+    };
     if replay.is_some() {
         // a replayed case is executed twice and must observe the same thing both times
         let (acc2, _) = runner(&ctx);
